@@ -875,6 +875,126 @@ def normalise_enumerate_range(fnode):
     return T().visit(copy.deepcopy(fnode))
 
 
+def normalise_chunk_table(fnode):
+    """A chunk table built by one comprehension and consumed by loops,
+        T = [(S(k), E(k)) for k in range(P)]
+        for i, (a, b) in enumerate(T): BODY        |  for a, b in T: BODY
+        for i in range(len(T)): ...
+    is the loop the chunking rules know:
+        for i in range(P): a = S(i); b = E(i); BODY
+        for i in range(P): ...
+    Only when T has exactly that one definition in the function and is used
+    nowhere else."""
+    import copy
+    fnode = copy.deepcopy(fnode)
+    defs = {}
+    for n in ast.walk(fnode):
+        if isinstance(n, ast.Assign) and len(n.targets) == 1 and \
+                isinstance(n.targets[0], ast.Name):
+            defs.setdefault(n.targets[0].id, []).append(n)
+    tables = {}
+    for name, ds in defs.items():
+        if len(ds) != 1:
+            continue
+        v = ds[0].value
+        if isinstance(v, ast.Call) and isinstance(v.func, ast.Name) and \
+                v.func.id in ("list", "tuple") and len(v.args) == 1 and not v.keywords:
+            v = v.args[0]
+        if not (isinstance(v, (ast.ListComp, ast.GeneratorExp)) and
+                len(v.generators) == 1 and not v.generators[0].ifs and
+                isinstance(v.generators[0].target, ast.Name) and
+                isinstance(v.elt, ast.Tuple) and len(v.elt.elts) == 2):
+            continue
+        if isinstance(v, ast.GeneratorExp) and v is ds[0].value:
+            continue            # a one-shot generator, not a table
+        g = v.generators[0]
+        if not (isinstance(g.iter, ast.Call) and isinstance(g.iter.func, ast.Name) and
+                g.iter.func.id == "range" and len(g.iter.args) == 1):
+            continue
+        tables[name] = (g.target.id, v.elt.elts[0], v.elt.elts[1], g.iter.args[0], ds[0])
+    if not tables:
+        return fnode
+
+    def subst(e, var, by):
+        class S(ast.NodeTransformer):
+            def visit_Name(self, n):
+                return ast.copy_location(ast.Name(id=by, ctx=ast.Load()), n) \
+                    if n.id == var and isinstance(n.ctx, ast.Load) else n
+        return S().visit(copy.deepcopy(e))
+
+    for name, (var, se, ee, parts, defst) in list(tables.items()):
+        # every use must be one of the three forms
+        uses = [n for n in ast.walk(fnode) if isinstance(n, ast.Name) and n.id == name
+                and isinstance(n.ctx, ast.Load)]
+        ok_uses = set()
+        for n in ast.walk(fnode):
+            if isinstance(n, ast.For):
+                it = n.iter
+                if isinstance(it, ast.Name) and it.id == name:
+                    ok_uses.add(id(it))
+                elif isinstance(it, ast.Call) and isinstance(it.func, ast.Name) and \
+                        it.func.id == "enumerate" and len(it.args) == 1 and \
+                        isinstance(it.args[0], ast.Name) and it.args[0].id == name:
+                    ok_uses.add(id(it.args[0]))
+            if isinstance(n, ast.Call) and isinstance(n.func, ast.Name) and \
+                    n.func.id == "len" and len(n.args) == 1 and \
+                    isinstance(n.args[0], ast.Name) and n.args[0].id == name:
+                ok_uses.add(id(n.args[0]))
+        if any(id(u) not in ok_uses for u in uses):
+            del tables[name]
+    if not tables:
+        return fnode
+    fresh = [0]
+
+    class T(ast.NodeTransformer):
+        def visit_Call(self, n):
+            self.generic_visit(n)
+            if isinstance(n.func, ast.Name) and n.func.id == "len" and len(n.args) == 1 \
+                    and isinstance(n.args[0], ast.Name) and n.args[0].id in tables:
+                return ast.copy_location(copy.deepcopy(tables[n.args[0].id][3]), n)
+            return n
+
+        def visit_For(self, n):
+            it = n.iter
+            name = idx = pair = None
+            if isinstance(it, ast.Name) and it.id in tables and \
+                    isinstance(n.target, ast.Tuple) and len(n.target.elts) == 2 and \
+                    all(isinstance(e, ast.Name) for e in n.target.elts):
+                name, pair = it.id, n.target.elts
+                fresh[0] += 1
+                idx = f"_chunk{fresh[0]}"
+            elif isinstance(it, ast.Call) and isinstance(it.func, ast.Name) and \
+                    it.func.id == "enumerate" and len(it.args) == 1 and \
+                    isinstance(it.args[0], ast.Name) and it.args[0].id in tables and \
+                    isinstance(n.target, ast.Tuple) and len(n.target.elts) == 2 and \
+                    isinstance(n.target.elts[0], ast.Name) and \
+                    isinstance(n.target.elts[1], ast.Tuple) and \
+                    len(n.target.elts[1].elts) == 2 and \
+                    all(isinstance(e, ast.Name) for e in n.target.elts[1].elts):
+                name, idx, pair = it.args[0].id, n.target.elts[0].id, n.target.elts[1].elts
+            self.generic_visit(n)
+            if name is None:
+                return n
+            var, se, ee, parts, _ = tables[name]
+            binds = [ast.Assign(targets=[ast.Name(id=pair[0].id, ctx=ast.Store())],
+                                value=subst(se, var, idx)),
+                     ast.Assign(targets=[ast.Name(id=pair[1].id, ctx=ast.Store())],
+                                value=subst(ee, var, idx))]
+            new = ast.For(target=ast.Name(id=idx, ctx=ast.Store()),
+                          iter=ast.Call(func=ast.Name(id="range", ctx=ast.Load()),
+                                        args=[copy.deepcopy(parts)], keywords=[]),
+                          body=binds + n.body, orelse=n.orelse)
+            ast.copy_location(new, n)
+            for b in binds:
+                for x in ast.walk(b):
+                    ast.copy_location(x, n)
+            return ast.fix_missing_locations(new)
+
+    out = T().visit(fnode)
+    # the table definitions stay (harmless: nothing reads them any more)
+    return out
+
+
 def resolve_default_idiom(fnode):
     """`x = V` followed (in the same block, x untouched in between) by `if x is
     None: x = E` is one definition of x: E when V is the literal None, V when V
